@@ -1,9 +1,13 @@
 #!/bin/sh
-# usage: tools/try_seed.sh <seed_dir> <PROP> [tier] — apply the seeded patch to /repo, run the check, undo.
+# usage: tools/try_seed.sh <seed_dir> <PROP> [tier] — run the check against a scratch worktree of /repo
+# with the seeded patch applied (VERIF_REPO points the check at it); /repo itself is not touched.
 D=$1; P=$2; T=${3:-quick}
-cd /repo || exit 2
-git diff --quiet || { echo "/repo has uncommitted changes"; exit 2; }
-git apply "$D/patch.diff" || { echo "patch does not apply"; exit 2; }
-cd /verif && ./check "$P" "$T" --no-evidence 2>&1 | grep -v "^\[" | cut -c1-400 | tail -${LINES_OUT:-8}
-(cd /verif && bin/symgo check "$P" --tier "$T" --no-evidence >/tmp/try_seed.out 2>&1; echo "exit=$?")
-cd /repo && git checkout -- . 
+W=/tmp/wt_try_$$
+git -C /repo worktree add --detach $W HEAD >/dev/null 2>&1 || exit 2
+trap 'git -C /repo worktree remove --force $W >/dev/null 2>&1' EXIT
+(cd $W && git apply "$D/patch.diff") || { echo "patch does not apply"; exit 2; }
+cd /verif && VERIF_REPO=$W bin/symgo check "$P" --tier "$T" --no-evidence --repo $W >/tmp/try_seed_$$.out 2>&1
+rc=$?
+grep -v "^\[" /tmp/try_seed_$$.out | cut -c1-400 | tail -${LINES_OUT:-6}
+echo "exit=$rc"
+rm -f /tmp/try_seed_$$.out
